@@ -384,95 +384,87 @@ func (cm *CMap) addMultiUnitRange(startCode, endCode uint32, dstHex string) {
 
 // parseBfRangeSectionWithArrays handles bfrange sections that contain array format entries
 func (cm *CMap) parseBfRangeSectionWithArrays(section string) error {
-	// Split into lines for array handling (arrays may span lines)
-	lines := strings.Split(section, "\n")
-
-	i := 0
-	for i < len(lines) {
-		line := strings.TrimSpace(lines[i])
-		if line == "" {
-			i++
-			continue
+	// An entry is <start> <end> followed by either one <target> or an array
+	// [<t1> <t2> ...]. Entries are separated by any white space - a line break is
+	// not required between them and an array may span lines - so the section is
+	// read token by token, not line by line.
+	rest := section
+	for {
+		startHex, afterStart, ok := nextHexToken(rest)
+		if !ok {
+			break
+		}
+		endHex, afterEnd, ok := nextHexToken(afterStart)
+		if !ok {
+			break
 		}
 
-		// Check if this is an array format
-		if strings.Contains(line, "[") {
+		if trimmed := strings.TrimLeft(afterEnd, " \t\r\n"); strings.HasPrefix(trimmed, "[") {
 			// Array format: <start> <end> [<u1> <u2> ...]
-			// This may span multiple lines
-			fullLine := line
-			for !strings.Contains(fullLine, "]") && i+1 < len(lines) {
-				i++
-				fullLine += " " + strings.TrimSpace(lines[i])
+			closing := strings.Index(trimmed, "]")
+			if closing == -1 {
+				break
 			}
-			cm.parseBfRangeArray(fullLine)
-			i++
+			cm.parseBfRangeArray("<" + startHex + "> <" + endHex + "> " + trimmed[:closing+1])
+			rest = trimmed[closing+1:]
 			continue
 		}
 
-		// Simple format on this line: <start> <end> <unicode>
-		hexStrings := make([]string, 0)
-		startIdx := 0
-		for {
-			idx := strings.Index(line[startIdx:], "<")
-			if idx == -1 {
-				break
-			}
-			idx += startIdx
-			endIdx := strings.Index(line[idx:], ">")
-			if endIdx == -1 {
-				break
-			}
-			endIdx += idx
+		// Simple format: <start> <end> <unicode>
+		dstHex, afterDst, ok := nextHexToken(afterEnd)
+		if !ok {
+			break
+		}
+		rest = afterDst
 
-			hexStr := line[idx+1 : endIdx]
-			hexStrings = append(hexStrings, hexStr)
-			startIdx = endIdx + 1
+		if startHex == "" || endHex == "" || dstHex == "" {
+			continue
 		}
 
-		// Process in groups of 3
-		for j := 0; j+2 < len(hexStrings); j += 3 {
-			startHex := hexStrings[j]
-			endHex := hexStrings[j+1]
-			dstHex := hexStrings[j+2]
-
-			if startHex == "" || endHex == "" || dstHex == "" {
-				continue
-			}
-
-			srcHexLen := len(startHex)
-			if srcHexLen%2 != 0 {
-				srcHexLen++
-			}
-			srcByteWidth := srcHexLen / 2
-			if srcByteWidth > cm.actualByteWidth {
-				cm.actualByteWidth = srcByteWidth
-			}
-
-			startCode, err1 := parseHexToUint32(startHex)
-			endCode, err2 := parseHexToUint32(endHex)
-			if err1 != nil || err2 != nil {
-				continue
-			}
-			if len(dstHex) > 4 {
-				cm.addMultiUnitRange(startCode, endCode, dstHex)
-				continue
-			}
-			dstUnicode, err3 := parseHexToUint32(dstHex)
-			if err3 != nil {
-				continue
-			}
-
-			cm.rangeMappings = append(cm.rangeMappings, CMapRange{
-				StartCode:    startCode,
-				EndCode:      endCode,
-				StartUnicode: dstUnicode,
-			})
+		srcHexLen := len(startHex)
+		if srcHexLen%2 != 0 {
+			srcHexLen++
+		}
+		srcByteWidth := srcHexLen / 2
+		if srcByteWidth > cm.actualByteWidth {
+			cm.actualByteWidth = srcByteWidth
 		}
 
-		i++
+		startCode, err1 := parseHexToUint32(startHex)
+		endCode, err2 := parseHexToUint32(endHex)
+		if err1 != nil || err2 != nil {
+			continue
+		}
+		if len(dstHex) > 4 {
+			cm.addMultiUnitRange(startCode, endCode, dstHex)
+			continue
+		}
+		dstUnicode, err3 := parseHexToUint32(dstHex)
+		if err3 != nil {
+			continue
+		}
+
+		cm.rangeMappings = append(cm.rangeMappings, CMapRange{
+			StartCode:    startCode,
+			EndCode:      endCode,
+			StartUnicode: dstUnicode,
+		})
 	}
 
 	return nil
+}
+
+// nextHexToken returns the content of the next <...> token in s and the text after it.
+func nextHexToken(s string) (hex string, rest string, ok bool) {
+	open := strings.Index(s, "<")
+	if open == -1 {
+		return "", s, false
+	}
+	end := strings.Index(s[open:], ">")
+	if end == -1 {
+		return "", s, false
+	}
+	return s[open+1 : open+end], s[open+end+1:], true
 }
 
 // parseBfRangeArray parses array format: <start> <end> [<u1> <u2> ...]
